@@ -78,6 +78,11 @@ var pool = []item{
 	{"src/sub/e.js", "f ( 1 , 2 ) ;\n"}, {"src/sub/e.js", "( function ( ) { g ( ) } ) ( )"},
 	{"src/.hid/z.css", "z { a : b }\n"},
 	{"src/sub/c.txt", "other\n"},
+	// fail only after the parser has rewritten part of its input in place (tag names lower-cased, a number shortened)
+	{"src/b.html", "<P CLASS=x> x   y </P><SCRIPT>var a = ( 1 ;</SCRIPT>\n"},
+	{"src/d.json", "{ \"a\" : 1.0e1 , \"b\" : }\n"},
+	// 511 bytes ending in a line comment: in a bundle the separator starts in the last byte of a 512-byte read buffer
+	{"src/a.js", "window.y = g ;\n/*" + strings.Repeat("p", 511-17-32) + "*/\n//# sourceMappingURL=a.js.map"},
 }
 
 func trees(maxFiles int) []clitree.Tree {
@@ -662,7 +667,7 @@ func One(cli string, c caseT) (string, string) {
 // Run executes C19.
 func Run(c *core.Check) {
 	maxFiles := c.Pick(3, 4)
-	c.Rule = fmt.Sprintf("every tree of <=%d files from a pool of 17 (names a.css a.js b.html c.txt .h.css noext a.min.css d.json in src/, src/sub/, a hidden directory; minifiable and failing contents) x %d invocation shapes (file→stdout/file/dir/itself/., several files→dir, bundle→file/stdout, directory with/without trailing slash ±-r ±-a ±-s, in place, --match/--include/--exclude glob and ~regex, --type/--mime/--ext, stdin, -q/-v, rejected combinations) run on the real binary in a fresh scratch directory; the reference model gives destination paths from the README rules and contents from library calls; every path not predicted must be byte-identical; non-trivial = at least one file was written", maxFiles, len(shapes))
+	c.Rule = fmt.Sprintf("every tree of <=%d files from a pool of 20 (names a.css a.js b.html c.txt .h.css noext a.min.css d.json in src/, src/sub/, a hidden directory; minifiable and failing contents) x %d invocation shapes (file→stdout/file/dir/itself/., several files→dir, bundle→file/stdout, directory with/without trailing slash ±-r ±-a ±-s, in place, --match/--include/--exclude glob and ~regex, --type/--mime/--ext, stdin, -q/-v, rejected combinations) run on the real binary in a fresh scratch directory; the reference model gives destination paths from the README rules and contents from library calls; every path not predicted must be byte-identical; non-trivial = at least one file was written", maxFiles, len(shapes))
 	c.Assumptions = []string{"reference model of destinations written from cmd/minify/README.md and the error messages of main.go", "--watch excluded (event driven)", "ownership/timestamps are not compared"}
 	defer clitree.Cleanup()
 	cli, err := clitree.CLI()
